@@ -25,7 +25,7 @@ if [ "$mode" = validate ]; then
   (cd "$S/repo" && eval "$demo_cmd" > "$S/demo1.log" 2>&1); b=$?
   echo "demo with change: exit $b (want non-zero)" | tee -a "$res"
   (cd "$S/repo" && git checkout -q -- . && git clean -fdq -e target -e _seeded) ; applyp "$seed/patch.diff"
-  (cd "$S/repo" && cargo nextest run --workspace --no-fail-fast --test-threads 8 --offline 2>&1 | tail -3 > "$S/suite.log");
+  (cd "$S/repo" && cargo nextest run --workspace --no-fail-fast --test-threads 8 --offline 2>&1 | grep -E "Summary|FAIL \[" | tail -6 > "$S/suite.log");
   sum=$(grep Summary "$S/suite.log")
   echo "suite with change: $sum" | tee -a "$res"
   if [ $a -eq 0 ] && [ $b -ne 0 ] && echo "$sum" | grep -q "661 passed, 0 skipped" && ! echo "$sum" | grep -q failed; then echo "VALID" | tee -a "$res"; else echo "INVALID" | tee -a "$res"; fi
